@@ -172,6 +172,10 @@ var c09Cases = []vCase{
 	{name: "nonground-retract-then-reassert", prog: ":- dynamic(p/1). p(k0). p(k1).", query: "retract(p(X)), assertz(p(f(X, Y))), Y = k2, fail ; findall(A, p(A), L)."},
 	{name: "retract-var-pattern-first", prog: ":- dynamic(p/2). p(k0, k1). p(k1, k0). p(k0, k0).", query: "retract(p(X, X)), findall(A-B, p(A, B), L)."},
 	{name: "assert-in-open-call-nonground", prog: ":- dynamic(p/1). p(k0). p(k1).", query: "p(X), assertz(p(g(X, Z))), Z = k2, fail ; findall(A, p(A), L)."},
+	{name: "arity0-duplicates-stale-retract", prog: ":- dynamic(foo/0). t :- assertz(foo), assertz(foo), retract(foo), once(retract(foo)), assertz(foo), fail. t.", query: "t, findall(x, foo, L)."},
+	{name: "arity0-duplicates-retract-one", prog: ":- dynamic(foo/0). foo. foo. foo.", query: "retract(foo), findall(x, foo, L)."},
+	{name: "arity0-rule-duplicates", prog: ":- dynamic(foo/0). :- dynamic(m/1). foo :- m(k0). foo :- m(k1). foo :- m(k0).", query: "retract((foo :- m(k0))), assertz((foo :- m(k2))), fail ; findall(B, clause(foo, B), L)."},
+	{name: "ground-duplicates-stale-retract", prog: ":- dynamic(g/1). t :- assertz(g(k0)), assertz(g(k0)), retract(g(k0)), once(retract(g(k0))), assertz(g(k0)), fail. t.", query: "t, findall(X, g(X), L)."},
 	{name: "retract-clause-with-body-var", prog: ":- dynamic(p/1). p(X) :- X = k0. p(k1).", query: "retract((p(A) :- B)), findall(C, p(C), L)."},
 }
 
